@@ -15,7 +15,7 @@ CONSTANTS
   BoundarySel = {1}
   PreSel = {1}
   EpiSel = {1}
-  FinSel = {TRUE, FALSE}
+  FinSel = {TRUE}
   LimModes = {"base", "count", "hdr", "buf"}
   EditPos <- NoPos
   EditKinds = {}
